@@ -16,7 +16,7 @@ Definition res_good (k : ckey) (r : resolution) : bool :=
   match r with RErr => true | RMsg m _ => fres_honest k (FMsg m) end.
 
 Definition SInv (s : cstate) : Prop :=
-  scripts_honest (c_udp s) = true /\ scripts_honest (c_tcp s) = true /\ cache_good (c_cache s) = true.
+  scripts_tagged (c_udp s) = true /\ scripts_tagged (c_tcp s) = true /\ cache_good (c_cache s) = true.
 
 Lemma forallb_filter' : forall {A} (P Q : A -> bool) l, forallb P l = true -> forallb P (filter Q l) = true.
 Proof.
@@ -38,15 +38,28 @@ Lemma forallb_kset : forall {V} (P : ckey * V -> bool) k v l,
   P (k, v) = true -> forallb P l = true -> forallb P (kset k v l) = true.
 Proof. intros. unfold kset, kremove. cbn. rewrite H. apply forallb_filter'; auto. Qed.
 
-Lemma pop_honest : forall k l,
-  scripts_honest l = true ->
-  fres_honest k (fst (pop k l)) = true /\ scripts_honest (snd (pop k l)) = true.
+Lemma pop_tagged : forall k l,
+  scripts_tagged l = true ->
+  fres_tagged (fst (pop k l)) = true /\ scripts_tagged (snd (pop k l)) = true.
 Proof.
   intros k l H. unfold pop.
   destruct (klookup k l) as [[|r rest]|] eqn:E; cbn [fst snd]; auto.
-  pose proof (klookup_forallb (fun e => forallb (fres_honest (fst e)) (snd e)) k _ l E H) as G.
+  pose proof (klookup_forallb (fun e => forallb fres_tagged (snd e)) k _ l E H) as G.
   cbn [fst snd forallb] in G. apply andb_true_iff in G as [G1 G2].
-  split; auto. unfold scripts_honest. apply forallb_kset; auto.
+  split; auto. unfold scripts_tagged. apply forallb_kset; auto.
+Qed.
+
+Lemma checked_honest : forall lq m,
+  fres_tagged (FMsg m) = true -> question_checked lq m = true -> q_class lq = 1 ->
+  fres_honest (key_of lq) (FMsg m) = true.
+Proof.
+  intros lq m T C Cl. unfold question_checked in C. cbn [fres_tagged fres_honest] in *.
+  destruct (m_q m) as [q|]; try discriminate.
+  unfold question_equiv in C. apply andb_true_iff in C as [C C3]. apply andb_true_iff in C as [C1 C2].
+  apply N.eqb_eq in C1, C2, C3.
+  assert (K : key_of q = key_of lq) by (unfold key_of; congruence).
+  rewrite K, (proj2 (ckey_eqb_eq _ _) eq_refl). rewrite <- C3, Cl. cbn [andb N.eqb Pos.eqb].
+  rewrite <- K. exact T.
 Qed.
 
 Lemma cacheable_good : forall k m e,
@@ -62,26 +75,28 @@ Qed.
 
 Ltac sinv := unfold SInv; cbn [c_udp c_tcp c_cache c_calls]; repeat split; auto.
 
-Lemma resolve_good : forall fb k s,
-  SInv s -> res_good k (fst (resolve fb k s)) = true /\ SInv (snd (resolve fb k s)).
+Lemma resolve_good : forall fb lq s,
+  SInv s -> q_class lq = 1 ->
+  res_good (key_of lq) (fst (resolve fb lq s)) = true /\ SInv (snd (resolve fb lq s)).
 Proof.
-  intros fb k s (HU & HT & HC). unfold resolve.
-  destruct (pop_honest k (c_udp s) HU) as [P1 P2].
+  intros fb lq s (HU & HT & HC) Cl. unfold resolve. set (k := key_of lq).
+  destruct (pop_tagged k (c_udp s) HU) as [P1 P2].
   destruct (pop k (c_udp s)) as [r1 udp']. cbn [fst snd] in P1, P2.
-  assert (FIN : forall m s2, fres_honest k (FMsg m) = true -> SInv s2 ->
-     let r := (if match m_q m with None => true | Some _ => false end then (RErr, s2) else
+  assert (FIN : forall m s2, fres_tagged (FMsg m) = true -> SInv s2 ->
+     let r := (if negb (question_checked lq m) then (RErr, s2) else
        match cacheable m with
        | Some e => (RMsg m true, {| c_cache := kset k e (c_cache s2); c_udp := c_udp s2; c_tcp := c_tcp s2; c_calls := c_calls s2 |})
        | None => (RMsg m false, s2)
        end) in res_good k (fst r) = true /\ SInv (snd r)).
-  { intros m s2 Hm (A & B & C). destruct (m_q m) eqn:Q; cbn; auto; [|repeat split; auto].
+  { intros m s2 Hm (A & B & C). destruct (question_checked lq m) eqn:Q; cbn [negb]; [|cbn; repeat split; auto].
+    pose proof (checked_honest lq m Hm Q Cl) as Hh. fold k in Hh.
     destruct (cacheable m) as [e|] eqn:Ce; cbn [fst snd res_good]; split; auto.
     - repeat split; auto. cbn [c_cache]. unfold cache_good. apply forallb_kset; auto.
       cbn [fst snd]. eapply cacheable_good; eauto.
     - repeat split; auto. }
   destruct r1 as [| |m].
   - destruct fb.
-    + destruct (pop_honest k (c_tcp s) HT) as [Q1 Q2]. cbn [c_tcp].
+    + destruct (pop_tagged k (c_tcp s) HT) as [Q1 Q2]. cbn [c_tcp].
       destruct (pop k (c_tcp s)) as [r2 tcp']. cbn [fst snd] in Q1, Q2.
       destruct r2 as [| |m2].
       * cbn [fst snd res_good]. split; [reflexivity|sinv].
@@ -89,7 +104,7 @@ Proof.
       * apply FIN; auto. sinv.
     + cbn [fst snd res_good]. split; [reflexivity|sinv].
   - destruct fb.
-    + destruct (pop_honest k (c_tcp s) HT) as [Q1 Q2]. cbn [c_tcp].
+    + destruct (pop_tagged k (c_tcp s) HT) as [Q1 Q2]. cbn [c_tcp].
       destruct (pop k (c_tcp s)) as [r2 tcp']. cbn [fst snd] in Q1, Q2.
       destruct r2 as [| |m2].
       * cbn [fst snd res_good]. split; [reflexivity|sinv].
@@ -128,7 +143,6 @@ Proof.
   apply hit_reply_ok; auto. eapply cacheable_good; eauto.
 Qed.
 
-Definition clients_in (cs : list client_query) : bool := forallb (fun c => q_class (cq_q c) =? 1) cs.
 
 Lemma round_clients_ok : forall p pn fb cache0 cs resolved s,
   cache_good cache0 = true ->
@@ -151,8 +165,8 @@ Proof.
         destruct (round_clients p pn fb cache0 cs resolved s) as [os s']. cbn [fst snd] in *.
         destruct IH as [F S']. split; auto. cbn [zip forallb fst snd]. rewrite F, andb_true_r.
         apply waiter_outcome_ok; auto.
-      * destruct (resolve_good fb (key_of (cq_q c)) s HS) as [RG S1].
-        destruct (resolve fb (key_of (cq_q c)) s) as [r s1]. cbn [fst snd] in RG, S1.
+      * destruct (resolve_good fb (cq_q c) s HS Hc) as [RG S1].
+        destruct (resolve fb (cq_q c) s) as [r s1]. cbn [fst snd] in RG, S1.
         assert (HR' : forall k r0, klookup k ((key_of (cq_q c), r) :: resolved) = Some r0 -> res_good k r0 = true).
         { intros k r0 H. cbn [klookup] in H. destruct (ckey_eqb (key_of (cq_q c)) k) eqn:E.
           - apply ckey_eqb_eq in E; subst. inversion H; subst; auto.
@@ -188,8 +202,8 @@ Proof.
   unfold entry_good in H1. apply andb_true_iff in H1 as [_ H1]. exact H1.
 Qed.
 
-Lemma C09_reply_question_cache_partial_proof : forall packed pnew fallback udp tcp rounds,
-  scripts_honest udp = true -> scripts_honest tcp = true -> forallb clients_in rounds = true ->
+Lemma C09_reply_question_cache_proof : forall packed pnew fallback udp tcp rounds,
+  scripts_tagged udp = true -> scripts_tagged tcp = true -> forallb clients_in rounds = true ->
   ctl_full_ok packed pnew fallback udp tcp rounds = true.
 Proof.
   intros packed pnew fallback udp tcp rounds HU HT HI. unfold ctl_full_ok.
@@ -199,7 +213,7 @@ Proof.
   rewrite F, (cache_good_ok _ HC). reflexivity.
 Qed.
 
-Print Assumptions C09_reply_question_cache_partial_proof.
+Print Assumptions C09_reply_question_cache_proof.
 
 (* ---------------- UDP receive loop ---------------- *)
 Definition rd_ok (q : list dgram) (orig : N) (r : ures) : Prop :=
